@@ -191,7 +191,7 @@ PROPS = {
                       "edge relation + ghost removal history). Assumed: contracts of networkx.strongly_connected_components / condensation (incl. acyclicity as a rank "
                       "function), lemma 'a non-empty finite DAG has a sink'. Not proved: order-independence of the chain result, strong/weak coupling sets (see not_covered).",
         "design_ref": "DESIGN.md §4 C08",
-        "modules": ["contracts.c08_dependency"],
+        "modules": ["contracts.c08_dependency", "contracts.c08_coupling"],
         "assumptions": [
             "a discipline is an opaque value; its input/output grammars are the name sets in_names(d)/out_names(d), not modified by the functions under contract",
             "networkx.strongly_connected_components(G) returns the partition of the nodes into classes of mutual reachability (reach = reflexive-transitive closure of the edge relation; only its closure axioms are used)",
